@@ -22,3 +22,11 @@ claim("C12",
  "Decides Threshold and ThresholdQ by structural equivalence with reference formulations written from the property text (expression DAGs compared by random interpretation; comparison atoms compared by boundary and strictness), constant folding of the extracted threshold closed form against exact integer arithmetic (every s <= 10^6 in the thorough tier), and order-independence of the binning loop from its effect shape.",
  "Not decided: Igamc's numeric accuracy (C06). Random interpretation: a false equality at 24/96 independent points has negligible probability; transcendental functions use injective surrogates.",
  "reference equivalence by random interpretation (Gulwani-Necula) + effect-shape commutativity", "DESIGN.md section 4 C12")
+claim("C13",
+ "Decides the agreement of the report's three hand-written tables for all file contents at once: header syntax and (P,Q) pairing; for every value column of the three scales (79 pairs) the appended P and Q are results of the same library call, from the slot the header kind names, of an entry point implementing the named test, with the labelled constant parameters, applied to the current file's data; one row {Base(file), P, Q} per job; the row writer's format and single Done per row; header/worker binding per scale; Add(count), NumWorkers workers, and identical file filters in the counting and the dispatching walker.",
+ "Not decided: liveness under all interleavings beyond these pairing counts (no scheduler model is explored), the numeric values (C01-C05).",
+ "table cross-checking on summaries: append-chain resolution to call results, header parsing, sibling-filter equivalence", "DESIGN.md section 4 C13")
+claim("C20",
+ "Decides the generator structurally for every s, n, output path and interleaving: the created path is <output>/random<token>.bin and data-depends on -o; tokens 0..s-1 each sent once with Add(s) before and Wait after; a buffer of n/8 bytes is filled from crypto/rand inside the iteration and written whole to the file just opened; OpenFile -> fill -> Write -> Close -> Done with Done exactly once on every continuing path; the output directory is created with owner rwx before the workers start; flag names/defaults agree with the README.",
+ "Not decided: pairwise different contents (probabilistic; only a fresh fill per file is shown). File-system semantics of os.OpenFile/MkdirAll are trusted.",
+ "provenance of the path argument, symbolic string pattern, ordering and exactly-once on summaries", "DESIGN.md section 4 C20")
